@@ -3,7 +3,12 @@ from typing import Dict, List, Optional, Set, cast
 
 from graphql import FragmentDefinitionNode, GraphQLSchema
 
-from ..codegen import generate_expr, generate_method_call, generate_module
+from ..codegen import (
+    generate_expr,
+    generate_method_call,
+    generate_module,
+    model_has_forward_refs,
+)
 from ..plugins.manager import PluginManager
 from .constants import BASE_MODEL_IMPORT, MODEL_REBUILD_METHOD
 from .result_types import ResultTypesGenerator
@@ -124,11 +129,12 @@ class FragmentsGenerator:
     def _get_model_rebuild_calls(
         self, top_level_fragments_names: List[str], class_defs: List[ast.ClassDef]
     ) -> List[ast.Call]:
-        class_names = [c.name for c in class_defs]
-        sorted_fragments_names = sorted(
-            top_level_fragments_names, key=class_names.index
-        )
+        names_to_rebuild = [
+            c.name
+            for c in class_defs
+            if c.name in top_level_fragments_names or model_has_forward_refs(c)
+        ]
         return [
             generate_expr(generate_method_call(name, MODEL_REBUILD_METHOD))
-            for name in sorted_fragments_names
+            for name in names_to_rebuild
         ]
